@@ -221,6 +221,10 @@ func (m *PoSAModel) epochs(parent *PNode) (e1 uint64, s1 []Addr, s0 []Addr) {
 	return
 }
 
+// Epochs is the exported view of the last two announcements on the path to parent: the height
+// and set of the most recent one, and the set announced before it.
+func (m *PoSAModel) Epochs(parent *PNode) (e1 uint64, s1 []Addr, s0 []Addr) { return m.epochs(parent) }
+
 // InEffect is the validator set that must seal a child of parent.
 func (m *PoSAModel) InEffect(parent *PNode) []Addr {
 	e1, s1, s0 := m.epochs(parent)
@@ -477,8 +481,21 @@ func (c *PoSAChain) NextSet(rng *rand.Rand, cur []Addr) []Addr {
 			}
 		}
 	}
-	switch rng.Intn(5) {
+	switch rng.Intn(8) {
 	case 0:
+	case 5: // shrink to about half (5 -> 3, 7 -> 4): the old, larger set keeps ruling the transition blocks
+		if len(out) > 1 {
+			perm := rng.Perm(len(out))
+			var keep []Addr
+			for _, i := range perm[:(len(out)+1)/2] {
+				keep = append(keep, out[i])
+			}
+			out = keep
+		}
+	case 6: // grow to about double
+		for n := len(out); n > 0 && len(out) < c.MaxV; n-- {
+			out = append(out, fresh())
+		}
 	case 1:
 		if len(out) < c.MaxV {
 			out = append(out, fresh())
